@@ -1140,9 +1140,12 @@ func (m *NetworkMachine) Dispose() {
 		t.MachineDispose(m.id)
 	}
 
-	// run doDispose handlers
+	// run doDispose handlers (OnDispose appends under the handlers lock)
 	// TODO timeouts?
-	for _, fn := range m.disposeHandlers {
+	m.handlersMx.Lock()
+	disposeHandlers := slices.Clone(m.disposeHandlers)
+	m.handlersMx.Unlock()
+	for _, fn := range disposeHandlers {
 		fn(m.id, m.ctx)
 	}
 
